@@ -172,6 +172,15 @@ def elem_text(e):
     return None
 
 
+def has_empty_error(v):
+    t, x = v
+    if t == "e":
+        return err_text(x) == b""
+    if t == "a" and x:
+        return any(has_empty_error(e) for e in x)
+    return False
+
+
 def reply_known(v, tb):
     """Classifier: (class tag, predicted packet or None when the side stops) for the reply shapes
     that are recorded findings, else None."""
@@ -182,7 +191,7 @@ def reply_known(v, tb):
         if ascii_upper(x) != x:
             return ("keyword-upcased", view(T_SIMPLE, kw=ascii_upper(x)))
         return None
-    if t == "e" and err_text(x) == b"":
+    if has_empty_error(v):          # also nested: the element cannot be read, so the array cannot
         return ("empty-error", None)
     if t == "b" and x is None:
         return ("null-as-empty", view(T_BULK))
@@ -434,9 +443,10 @@ def gen_conv(rng, tb, n=None, clean=True, big=False):
 def table_convs(rng, tb, every_arity):
     """Every command of the table; with every_arity each of 0..4 arguments, else one arity each."""
     exs = []
+    kws = list(tb["keywords"])          # every keyword of the table appears as a status reply
     for name in tb["commands"]:
         for k in (range(5) if every_arity else [rng.randint(0, 4)]):
-            exs.append({"cmd": mk_cmd(rng, tb, name, k), "reply": mk_reply(rng, tb, True)})
+            exs.append({"cmd": mk_cmd(rng, tb, name, k), "reply": ["s", kws.pop()] if kws else mk_reply(rng, tb, True)})
     rng.shuffle(exs)
     out = []
     i = 0
